@@ -376,7 +376,7 @@ impl SimScheduler {
     pub fn new(spec: &SchedSpec) -> Self {
         let mut rng = Rng::new(spec.seed);
         let mut change_points = Vec::new();
-        if spec.policy == "pct" {
+        if spec.policy == "pct" || spec.policy == "stall" {
             for _ in 0..spec.param {
                 change_points.push(rng.below(spec.horizon.max(1) as u64) as u32);
             }
@@ -464,7 +464,28 @@ impl Scheduler for SimScheduler {
             ids[0]
         } else {
             let c = match self.spec.policy.as_str() {
-                "random" | "stall" => ids[self.rng.usize_below(ids.len())],
+                "random" => ids[self.rng.usize_below(ids.len())],
+                "stall" => {
+                    // besides the stalls at publication points (before_publish), the running task
+                    // is preempted for a long stretch at `param` seeded steps of the run
+                    if cur_runnable && self.change_points.contains(&step) {
+                        let d = match self.rng.below(3) {
+                            0 => self.rng.range(4, 40),
+                            1 => self.rng.range(40, 400),
+                            _ => self.rng.range(400, 2000),
+                        } as u32;
+                        let victim = cur.unwrap() as u32;
+                        with(|w| w.stalled.push((victim, step + d)));
+                        let rest: Vec<usize> = ids.iter().copied().filter(|i| *i as u32 != victim).collect();
+                        if rest.is_empty() {
+                            ids[0]
+                        } else {
+                            rest[self.rng.usize_below(rest.len())]
+                        }
+                    } else {
+                        ids[self.rng.usize_below(ids.len())]
+                    }
+                }
                 "sticky" => {
                     // a task that yields (spin/poll loop) is not kept running
                     if cur_runnable && !is_yielding && self.rng.below(256) < self.spec.param as u64
